@@ -234,6 +234,9 @@ pub fn families(kind: Kind, tier: Tier) -> Vec<Box<dyn Family>> {
             v.push(Box::new(classics()));
         }
         (_, Tier::Quick) => {
+            if matches!(kind, Kind::C19 | Kind::C02) {
+                v.push(Box::new(big_classics()));
+            }
             v.push(Box::new(core_quick()));
             v.push(Box::new(side_family(false)));
             v.push(Box::new(core_other_universe(1, false)));
@@ -241,8 +244,10 @@ pub fn families(kind: Kind, tier: Tier) -> Vec<Box<dyn Family>> {
             v.push(Box::new(classics()));
             v.push(Box::new(level3_slice(false)));
             v.push(Box::new(level3_pairs(false)));
+            v.push(Box::new(nested_loops(false)));
         }
         (_, Tier::Thorough) => {
+            v.push(Box::new(big_classics()));
             v.push(Box::new(core_wide()));
             v.push(Box::new(core_thorough_extra()));
             v.push(Box::new(side_family(true)));
@@ -257,6 +262,7 @@ pub fn families(kind: Kind, tier: Tier) -> Vec<Box<dyn Family>> {
             v.push(Box::new(BinaryWith { small, base: Box::new(core_quick()), stride: 97, offset: 405 + 3240 }));
             v.push(Box::new(level3_slice(true)));
             v.push(Box::new(level3_pairs(true)));
+            v.push(Box::new(nested_loops(true)));
         }
     }
     v
@@ -406,10 +412,14 @@ fn run_chunk(kind: Kind, tier: Tier, fi: usize, f: &dyn Family, lo: usize, hi: u
             let mut ch = Chunk { kind, u: &u, re: ReManager::new(), cache: RefCache::new(u.clone()) };
             for (i, p, shallow) in &progs {
                 beat();
+                // the reference DFA is machinery: a slow reference must never look like a hang of the code under test
+                clear_current_case();
+                let rf = ch.cache.dfa(p);
+                beat();
                 set_current_case(json!({"kind": kind.id(), "universe": u.id, "prog": p.show(), "shallow": shallow}));
                 let mut msgs = vec![];
                 let mut local = Report::new();
-                check_program(&mut ch, p, *shallow, &mut local, &mut msgs);
+                check_program(&mut ch, p, &rf, *shallow, &mut local, &mut msgs);
                 if only.map(|o| o != *i).unwrap_or(false) {
                     continue;
                 }
@@ -426,7 +436,8 @@ fn run_chunk(kind: Kind, tier: Tier, fi: usize, f: &dyn Family, lo: usize, hi: u
                                 let mut c2 = Chunk { kind, u: &u2, re: ReManager::new(), cache: RefCache::new(u2.clone()) };
                                 let mut m2 = vec![];
                                 let mut r2 = Report::new();
-                                check_program(&mut c2, &p2, sh, &mut r2, &mut m2);
+                                let rf2 = c2.cache.dfa(&p2);
+                                check_program(&mut c2, &p2, &rf2, sh, &mut r2, &mut m2);
                                 !m2.is_empty()
                             })
                             .unwrap()
@@ -456,10 +467,10 @@ fn run_chunk(kind: Kind, tier: Tier, fi: usize, f: &dyn Family, lo: usize, hi: u
     }
 }
 
-fn check_program(ch: &mut Chunk<'_>, p: &P, shallow: bool, rep: &mut Report, msgs: &mut Vec<String>) {
+fn check_program(ch: &mut Chunk<'_>, p: &P, rf: &Arc<Dfa>, shallow: bool, rep: &mut Report, msgs: &mut Vec<String>) {
     rep.inc("evaluations");
     rep.inc("programs");
-    let rf = ch.cache.dfa(p);
+    let rf = rf.clone();
     let u = ch.u;
     let built = guarded(|| build_mgr(u, &mut ch.re, p));
     let t = match built {
@@ -957,6 +968,9 @@ fn check_c19(ch: &mut Chunk<'_>, t: RegLan, rep: &mut Report) -> Vec<String> {
     if a.num_states() != n {
         msgs.push(format!("compile(e) has {} states but there are {} distinct derivatives", a.num_states(), n));
     }
+    // the derivatives are expressions too: after the (failing and succeeding) attempts on the root below, and on a
+    // manager that has seen many other programs, each of them must still obey its own bound
+    let ds_copy: Vec<usize> = ds.clone();
     let mut bounds: Vec<usize> = vec![0, 1, n.saturating_sub(1), n, n + 1, usize::MAX];
     if n <= 8 {
         bounds.extend(0..=n + 1);
@@ -979,6 +993,21 @@ fn check_c19(ch: &mut Chunk<'_>, t: RegLan, rep: &mut Report) -> Vec<String> {
                 if exp {
                     msgs.push(format!("try_compile(e, {}) returned None although there are only {} derivatives", b, n));
                 }
+            }
+        }
+    }
+    if n <= 40 && msgs.is_empty() {
+        for &d in ds_copy.iter().skip(1).take(16) {
+            let e = as_re(d);
+            let nd = ch.re.iter_derivatives(e).count();
+            rep.inc("try_compile_calls");
+            match ch.re.try_compile(e, nd) {
+                Some(x) if x.num_states() == nd => {}
+                Some(x) => msgs.push(format!("derivative {}: try_compile(d, {}) has {} states", e, nd, x.num_states())),
+                None => msgs.push(format!("derivative {} has {} derivatives but try_compile(d, {}) returned None (after bounded attempts on the expression it derives from)", e, nd, nd)),
+            }
+            if nd >= 1 && ch.re.try_compile(e, nd - 1).is_some() {
+                msgs.push(format!("derivative {}: try_compile(d, {}) succeeded although it has {} derivatives", e, nd - 1, nd));
             }
         }
     }
